@@ -3,7 +3,7 @@
    every operation as a list of integers (compared exactly with the
    implementation's state). Model file. *)
 From Coq Require Import QArith Qminmax List Bool Arith ZArith.
-From WSI Require Import Vqip Pow Enc Tank Arc QTank.
+From WSI Require Import Vqip Pow Enc Tank Arc QTank Distrib.
 Import ListNotations.
 Open Scope Q_scope.
 
@@ -129,5 +129,41 @@ Fixpoint run_altarc (L : nat) (l : altarc) (s : nb * nb) (ops : list aop) : list
   | [] => []
   | o :: r => let '(l', s', out) := altarc_step l s o in
               out ++ enc_altarc L l' ++ enc_nb (fst s') ++ enc_nb (snd s') ++ run_altarc L l' s' r
+  end.
+
+(* ---------------- a distributing node with its out-star and in-star ---------------- *)
+Inductive sop :=
+| SPush (v : vqip) (ot : option (list nat)) | SPull (q : Q) (ot : option (list nat))
+| SPushCheck (ov : option Q) (ot : option (list nat)) | SPullCheck (ov : option Q) (ot : option (list nat))
+| SEnd.
+Definition nstar := star (nb * nb).
+Definition enc_star (st : nstar) : list Z :=
+  flat_map (fun x => enc_arc (sa_a _ x) ++ enc_nb (fst (sa_s _ x)) ++ enc_nb (snd (sa_s _ x))) st.
+Definition end_star (st : nstar) : nstar :=
+  map (fun x => mkSA _ (a_end (sa_a _ x)) (sa_pref _ x) (sa_s _ x) (sa_ty _ x)) st.
+Definition star_step (maxiter : nat) (outs ins : nstar) (o : sop) : option (nstar * nstar * list Z) :=
+  match o with
+  | SPush v ot =>
+      match push_distributed _ nbport maxiter ot outs v with
+      | None => None
+      | Some (outs', r, msg) => Some (outs', ins, ev r ++ encb msg)
+      end
+  | SPull q ot =>
+      match pull_distributed _ nbport maxiter ot ins q with
+      | None => None
+      | Some (ins', r, msg) => Some (outs, ins', ev r ++ encb msg)
+      end
+  | SPushCheck ov ot => Some (outs, ins, ev (check_basic _ nbport true ot outs ov))
+  | SPullCheck ov ot => Some (outs, ins, ev (check_basic _ nbport false ot ins ov))
+  | SEnd => Some (end_star outs, end_star ins, [])
+  end.
+Fixpoint run_star (maxiter : nat) (outs ins : nstar) (ops : list sop) : list Z :=
+  match ops with
+  | [] => []
+  | o :: r =>
+      match star_step maxiter outs ins o with
+      | None => [(-999)%Z]                        (* the implementation must raise ZeroDivisionError here *)
+      | Some (outs', ins', out) => out ++ enc_star outs' ++ enc_star ins' ++ run_star maxiter outs' ins' r
+      end
   end.
 End Dim.
